@@ -740,6 +740,19 @@ impl<'a, C: Crypto> CaseResponder<'a, C> {
 
         // ---- Load keys + identity into the reserved session. -----------
         exchange.with_state(|state| {
+            // `Sigma2_Resume` was sent (and its acknowledgement awaited)
+            // since the record was copied out of the cache. If the record
+            // is gone, its fabric was removed in the meantime (every
+            // removal path purges the records of the fabric) - possibly
+            // with another fabric already sitting at the same index.
+            if state
+                .resumption
+                .find_by_resumption_id(record.resumption_id.reference().access())
+                .is_none()
+            {
+                return Err(ErrorCode::Invalid.into());
+            }
+
             let local_nodeid = state
                 .fabrics
                 .get(record.fab_idx)
@@ -824,16 +837,34 @@ impl<'a, C: Crypto> CaseResponder<'a, C> {
         // `SharedSecret` and peer identity are unchanged; only the
         // `resumption_id` is rotated. `insert_or_update` refreshes the
         // existing record for this peer and moves it to the tail (MRU).
-        exchange.with_state(|state| {
-            state.resumption.insert_or_update(ResumableSession {
-                fab_idx: record.fab_idx,
-                peer_nodeid: record.peer_nodeid,
-                peer_cat_ids: record.peer_cat_ids,
-                resumption_id: new_rid,
-                shared_secret: record.shared_secret.clone(),
-            });
-            Ok::<_, Error>(())
+        //
+        // Only if the record we resumed from is still cached: while this
+        // task awaited SigmaFinished and the acknowledgement above, the
+        // fabric may have been removed (which purged the record and
+        // dropped the - reserved or completed - session); the rotated
+        // record must not come back for a fabric index that is gone.
+        let rotated = exchange.with_state(|state| {
+            Ok::<_, Error>(state.resumption.rotate(
+                record.resumption_id.reference().access(),
+                ResumableSession {
+                    fab_idx: record.fab_idx,
+                    peer_nodeid: record.peer_nodeid,
+                    peer_cat_ids: record.peer_cat_ids,
+                    resumption_id: new_rid,
+                    shared_secret: record.shared_secret.clone(),
+                },
+            ))
         })?;
+
+        if !rotated {
+            warn!(
+                "CASE resumption: the record resumed from is no longer cached \
+                 (fabric {} removed?); not caching the rotated resumption id",
+                record.fab_idx.get()
+            );
+            return Ok(true);
+        }
+
         exchange.matter().transport().notify_resumption_dirty();
 
         info!(
